@@ -165,29 +165,44 @@ def r19c(ctx):
     eq = m.need_class("Expression")
     gv, ev = m.method(eq, "get_value"), m.method(eq, "eval")
     f = gv.file
-    # get_value: the IdentifierToken branch
-    br = None
-    for s in walk_no_nested(gv.node):
-        if isinstance(s, ast.If) and "IdentifierToken" in ast.unparse(s.test):
-            br = s
-    if br is None:
+    # get_value, judged as a whole (whatever the branch layout): what it may return, read, call and name
+    params = func_params(gv.node)
+    tok = [p_ for p_ in params if p_ != "self"][0]
+    maps = set(params[-2:])
+    gbody = ast.Module(body=gv.node.body, type_ignores=[])      # the statements, not the signature's annotations
+    aliases_ = set(maps)
+    for l_ in walk_no_nested(gbody):
+        if isinstance(l_, ast.For) and isinstance(l_.target, ast.Name) and isinstance(l_.iter, (ast.Tuple, ast.List)) \
+                and l_.iter.elts and all(dotted(e_) in maps for e_ in l_.iter.elts):
+            aliases_.add(l_.target.id)         # `for scope in (locals, globals):`
+    if not any("IdentifierToken" in ast.unparse(s_.test) for s_ in walk_no_nested(gbody) if isinstance(s_, ast.If)):
         ctx.inconclusive("R19c", f, "Expression.get_value", gv.node, "identifier branch", "IdentifierToken branch not found")
     else:
-        params = func_params(gv.node)
-        maps = set(params[-2:])
-        reads = [x for x in ast.walk(ast.Module(body=br.body, type_ignores=[])) if isinstance(x, ast.Subscript)]
-        bad = [x for x in reads if dotted(x.value) not in maps]
-        other_calls = [c for c in ast.walk(ast.Module(body=br.body, type_ignores=[])) if isinstance(c, ast.Call)
-                       and call_name(c) not in ("KeyError",)]
-        names_used = {x.id for x in ast.walk(ast.Module(body=br.body, type_ignores=[])) if isinstance(x, ast.Name)}
-        foreign = names_used - maps - {"token", "KeyError"} - set(params)
-        if not bad and not other_calls and not foreign and terminates(br.body):
-            ctx.proved("R19c", f, "Expression.get_value", br, "identifier resolution",
+        def rooted_at_token(e_):
+            while isinstance(e_, ast.Attribute):
+                e_ = e_.value
+            return isinstance(e_, ast.Name) and e_.id == tok
+        locals_ = {t_.id for a_ in walk_no_nested(gbody) if isinstance(a_, ast.Assign) for t_ in a_.targets if isinstance(t_, ast.Name)
+                   and rooted_at_token(a_.value)}
+        rets = [r_ for r_ in walk_no_nested(gbody) if isinstance(r_, ast.Return) and r_.value is not None]
+        bad_rets = [r_ for r_ in rets if not (rooted_at_token(resolve_local(gv.node, r_.value))
+                                              or (isinstance(r_.value, ast.Subscript) and dotted(r_.value.value) in aliases_))]
+        reads = [x for x in walk_no_nested(gbody) if isinstance(x, ast.Subscript)]
+        bad = [x for x in reads if dotted(x.value) not in aliases_] + bad_rets
+        other_calls = [c for c in walk_no_nested(gbody) if isinstance(c, ast.Call)
+                       and call_name(c) not in ("KeyError", "ValueError", "TypeError", "isinstance")]
+        names_used = {x.id for x in walk_no_nested(gbody) if isinstance(x, ast.Name)}
+        token_classes = {n_ for n_ in names_used if m.resolve_class(MOD, ast.Name(id=n_, ctx=ast.Load())) is not None}
+        foreign = names_used - aliases_ - locals_ - token_classes - {"KeyError", "ValueError", "TypeError", "isinstance"} - set(params)
+        raises_key = any(isinstance(r_, ast.Raise) and r_.exc is not None and "KeyError" in ast.unparse(r_.exc) for r_ in walk_no_nested(gbody))
+        if not bad and not other_calls and not foreign and raises_key and terminates(gv.node.body):
+            ctx.proved("R19c", f, "Expression.get_value", gv.node, "identifier resolution",
                        f"names are looked up in {sorted(maps)} only; unknown names raise")
         else:
-            ctx.violation("R19c", f, "Expression.get_value", (bad or other_calls or [br])[0], "identifier resolution",
+            ctx.violation("R19c", f, "Expression.get_value", (bad or other_calls or [gv.node])[0], "identifier resolution",
                           f"identifier resolution reaches beyond the supplied mappings "
-                          f"({[norm(x, 40) for x in bad + other_calls]} {sorted(foreign)}): names outside the variables given "
+                          f"({[norm(x, 40) for x in bad + other_calls]} {sorted(foreign)}"
+                          + ("" if raises_key else "; an unknown name no longer raises KeyError") + "): names outside the variables given "
                           f"and the whitelist can be resolved")
     # eval defaults
     src = ast.unparse(ev.node).replace(" ", "")
@@ -405,8 +420,9 @@ def r19h(ctx):
         for c in walk_no_nested(fn.node):
             if isinstance(c, ast.Call) and isinstance(c.func, ast.Attribute) and c.func.attr == "eval":
                 for k in c.keywords:
-                    if k.arg == "locals" and isinstance(k.value, ast.Dict):
-                        for v in k.value.values:
+                    kv = resolve_local(fn.node, k.value) if k.arg == "locals" else None
+                    if isinstance(kv, ast.Dict):
+                        for v in kv.values:
                             if isinstance(v, ast.Name) and v.id in func_params(fn.node):
                                 live.append((fn, c, v.id))
     ctx.floor("R19h", len(live), 1, "evaluation sites passing live objects")
